@@ -43,6 +43,19 @@ func (w *tw) nodes(ns []Node, depth int) {
 			w.loop(n.Loop, depth)
 		case n.Probe != nil:
 			w.probe(n.Probe)
+		case n.Text != nil:
+			w.sb.WriteString(n.Text.ID + "(")
+			for k, r := range n.Text.Reads {
+				if k > 0 {
+					w.sb.WriteString(",")
+				}
+				if r.Pos == "tern" {
+					w.sb.WriteString("{{ " + r.expr() + " ? 'Y' : 'N' }}")
+				} else {
+					w.sb.WriteString("{{ " + r.Path + " }}")
+				}
+			}
+			w.sb.WriteString(")")
 		}
 	}
 }
